@@ -66,6 +66,10 @@ def impl_cidr_merge(items, forms=None):
                 o = str(o)
             elif f == 2 and it[3] == w:
                 o = netaddr.IPAddress(it[2], it[1])
+            elif f == 3:      # 'address/netmask' text: the same network in another accepted notation
+                o = "%s/%s" % (netaddr.IPAddress(it[2], it[1]), netaddr.IPAddress((1 << w) - (1 << (w - it[3])), it[1]))
+            elif f == 4 and 0 < it[3] < w:      # 'address/hostmask' text (prefix 0 and full width are read as netmasks)
+                o = "%s/%s" % (netaddr.IPAddress(it[2], it[1]), netaddr.IPAddress((1 << (w - it[3])) - 1, it[1]))
         objs.append(o)
     out = _nets(netaddr.cidr_merge(objs))
     import zlib
@@ -246,7 +250,7 @@ def cases(rng, tier):
         if rng.random() < 0.5:
             yield ("c05_cidr_merge", [items], "merge")
         else:
-            yield ("c05_cidr_merge_forms", [items, [rng.randrange(3) for _ in items]], "merge_forms")
+            yield ("c05_cidr_merge_forms", [items, [rng.randrange(5) for _ in items]], "merge_forms")
     for _ in range(200 if quick else 5000):
         items = []
         for _ in range(rng.randint(1, 8)):
